@@ -1,4 +1,5 @@
 import KitProofs.Lemmas.RunnerTrace
+import KitProofs.Lemmas.RunnerSim
 /-!
 # C12 — runner / closer managers: the property theorems
 
@@ -648,5 +649,60 @@ theorem add_race_hang_witness :
   | ret i => rcases i with _ | _ | i <;> simp [RMRacy.step]
   | deliver i => rcases i with _ | _ | i <;> simp [RMRacy.step]
   | _ => simp [RMRacy.step]
+
+/-! ## Soundness of the tie: what `kitdrv C12` accepts is the event log of an execution
+
+`Sim.accepts` (`KitModel/RunnerSim.lean`) is the function the driver computes event by event (state
+sets in hash sets, closed under τ with a worklist).  `Sim.Reached M init evs t` says: there is an
+execution from `init` to `t` made of internal steps and, in order, exactly one step per observed
+event, labelled by one of that event's candidate labels and taken in a state passing the event's
+filter (for `run.ret`/`close.ret`: the model's joined error equals the observed one). -/
+
+/-- **accepts_sound.** If the simulation accepts an event log, some execution of the model has it. -/
+theorem accepts_sound {σ α : Type} [BEq σ] [Hashable σ] [LawfulBEq σ] (M : Sim σ α) (init : σ)
+    (evs : List (Ev σ α)) (h : M.accepts init evs = true) : ∃ t, Sim.Reached M init evs t := by
+  simp only [Sim.accepts, Bool.not_eq_true', List.isEmpty_eq_false_iff] at h
+  obtain ⟨t, ht⟩ := List.exists_mem_of_ne_nil _ h
+  exact ⟨t, Sim.run_good M init evs t ht⟩
+
+/-- For the closer-manager model: such an execution is an `Exec` (so every theorem above applies to
+the state it reaches and to its event log). -/
+theorem reached_is_execution {cfg : Cfg} {evs : List (Ev RCM Label)} {t : RCM}
+    (h : Sim.Reached (rcmSim cfg) {} evs t) : ∃ tr, RCM.Exec cfg tr t := by
+  induction h with
+  | init => exact ⟨[], RCM.Exec.init⟩
+  | tau a _ _ hs ih => obtain ⟨tr, he⟩ := ih; exact ⟨a :: tr, RCM.Exec.step a he hs⟩
+  | obs e a _ _ _ hs ih => obtain ⟨tr, he⟩ := ih; exact ⟨a :: tr, RCM.Exec.step a he hs⟩
+
+theorem reached_is_execution_rm {evs : List (Ev RM RLabel)} {t : RM}
+    (h : Sim.Reached rmSim {} evs t) : ∃ tr, RM.Exec tr t := by
+  induction h with
+  | init => exact ⟨[], RM.Exec.init⟩
+  | tau a _ _ hs ih => obtain ⟨tr, he⟩ := ih; exact ⟨a :: tr, RM.Exec.step a he hs⟩
+  | obs e a _ _ _ hs ih => obtain ⟨tr, he⟩ := ih; exact ⟨a :: tr, RM.Exec.step a he hs⟩
+
+/-- The driver's verdict on a real log, spelled out for the closer manager: accepted ⇒ reachable
+model state, hence covered by the invariants (`RCM.inv_of_reach`). -/
+theorem accepted_log_reaches_invariant_state {cfg : Cfg} (evs : List (Ev RCM Label))
+    (h : (rcmSim cfg).accepts {} evs = true) :
+    ∃ t, Sim.Reached (rcmSim cfg) {} evs t ∧ RCM.Reach cfg t ∧ RCM.Inv cfg t := by
+  obtain ⟨t, ht⟩ := accepts_sound (rcmSim cfg) {} evs h
+  obtain ⟨tr, he⟩ := reached_is_execution ht
+  exact ⟨t, ht, RCM.reach_of_exec he, RCM.inv_of_reach (RCM.reach_of_exec he)⟩
+
+/-- A concrete log and the execution that explains it (`run.call`, then `run.ret` with no error on
+a manager without runners or closers): observed steps interleaved with the internal ones.
+(That `accepts` itself returns `true` is exhibited on every run of the check: the driver accepts
+the ≈ 10⁴–10⁵ logs of real executions; hash sets do not reduce in the kernel.) -/
+example : ∃ t, Sim.Reached (rcmSim {}) {}
+    [(fun _ => true, [.runCall]), (fun s => s.retErr == [], [.runRet])] t := by
+  refine ⟨_, Sim.Reached.obs (evs := [(fun _ => true, [Label.runCall])]) _ .runRet
+    (Sim.Reached.tau .finish (Sim.Reached.tau .lockClosing (Sim.Reached.tau .gotInner
+      (Sim.Reached.tau (.inner .runRet) (Sim.Reached.tau (.inner .runCas) (Sim.Reached.tau .launch
+        (Sim.Reached.tau .prepare (Sim.Reached.tau .runCas
+          (Sim.Reached.obs (evs := []) (fun _ => true, [Label.runCall]) .runCall Sim.Reached.init rfl
+            (by simp) rfl)
+          (by decide) rfl) (by decide) rfl) (by decide) rfl) (by decide) rfl) (by decide) rfl)
+      (by decide) rfl) (by decide) rfl) (by decide) rfl) rfl (by simp) rfl⟩
 
 end Kit.Runner
